@@ -298,6 +298,13 @@ func ruleUnionAccess(c *Ctx) {
 				return true
 			}
 			base := full[:lb] // await(Store:K1+K2).Store.Results
+			// a plain helper reading a completion passed in by its (single) caller: the parameter
+			// stands for the caller's argument
+			if strings.HasPrefix(base, "param:") {
+				if r, ok := m.substParam(name, base); ok {
+					base = r
+				}
+			}
 			idx := full[lb+1 : len(full)-1]
 			member := se.Sel.Name
 			n++
@@ -383,6 +390,55 @@ func ruleUnionAccess(c *Ctx) {
 	}
 	c.count("result_union_accesses", n)
 	c.floor("result union accesses", n, 30)
+}
+
+// substParam rewrites a provenance rooted at a parameter of the package-level function fn into the
+// provenance of the argument at fn's call sites, when every call site in the package passes an
+// argument with the same provenance.
+func (m *coroModel) substParam(fn string, pv string) (string, bool) {
+	cf := m.Funcs[fn]
+	if cf == nil {
+		return "", false
+	}
+	rest := strings.TrimPrefix(pv, "param:")
+	pname := rest
+	tail := ""
+	if i := strings.IndexAny(rest, ".["); i >= 0 {
+		pname, tail = rest[:i], rest[i:]
+	}
+	idx := -1
+	k := 0
+	for _, f := range cf.Decl.Type.Params.List {
+		for _, n := range f.Names {
+			if n.Name == pname {
+				idx = k
+			}
+			k++
+		}
+	}
+	if idx < 0 {
+		return "", false
+	}
+	obj := m.Pk.TypesInfo.Defs[cf.Decl.Name]
+	var got []string
+	for _, name := range m.Order {
+		caller := m.Funcs[name]
+		for _, call := range callsInDeep(caller.Decl.Body) {
+			if calleeOf(m.Pk.TypesInfo, call) != obj || idx >= len(call.Args) {
+				continue
+			}
+			got = append(got, caller.Env.prov(call.Args[idx]))
+		}
+	}
+	if len(got) == 0 {
+		return "", false
+	}
+	for _, g := range got[1:] {
+		if g != got[0] {
+			return "", false
+		}
+	}
+	return got[0] + tail, true
 }
 
 func contains(xs []string, x string) bool {
